@@ -264,7 +264,7 @@ End Bisect.
    ("the target volume is bracketed inside [l1init, l2init]") the returned design's volume differs from the
    target by at most the volume difference across the final interval, whose length is <= l1l2tol *)
 Theorem bisect_volume_bracket (pr : @oc_params R) maxvol (x g : list R) fuel l1 l2 last a b xnew :
-  0 <= l1 <= l2 -> nonneg x -> nonpos g -> length g = length x ->
+  0 <= l1l2tol pr -> 0 <= l1 <= l2 -> nonneg x -> nonpos g -> length g = length x ->
   bisect ROOps pr maxvol x g fuel l1 l2 last = BisDone a b (Some xnew) -> a <> l1 -> b <> l2 ->
   let vol := fun lam => osum ROOps (oc_xnew ROOps pr lam x g) in
   l1 < a <= b /\ b < l2 /\ b - a <= l1l2tol pr /\
@@ -272,8 +272,8 @@ Theorem bisect_volume_bracket (pr : @oc_params R) maxvol (x g : list R) fuel l1 
   vol b <= maxvol < vol a /\ vol b <= osum ROOps xnew <= vol a /\
   Rabs (osum ROOps xnew - maxvol) <= vol a - vol b.
 Proof.
-  intros [H0 Hle] Hx Hg Hlen E Ha Hb vol.
-  destruct (bisect_invariant pr maxvol x g fuel l1 l2 last a b (Some xnew) Hle E) as [P1 [P2 [P3 [P4 [_ [P6 [P7 P8]]]]]]].
+  intros Htol [H0 Hle] Hx Hg Hlen E Ha Hb vol.
+  destruct (bisect_invariant pr maxvol x g Htol fuel l1 l2 last a b (Some xnew) Hle E) as [P1 [P2 [P3 [P4 [_ [P6 [P7 P8]]]]]]].
   destruct P6 as [P6 | P6]; [contradiction|]. destruct P7 as [P7 | P7]; [contradiction|].
   assert (Hla : l1 < a) by lra. assert (Hbl : b < l2) by lra.
   assert (Hanti : vol b <= vol a) by (apply volume_antitone; [lra | assumption..]).
@@ -399,7 +399,7 @@ Qed.
    from maxvol by at most vol(a) - vol(b) *)
 Theorem oc_step_volume (pr : @oc_params R) maxvol (x g : list R) gfuel bfuel l2g xng a b xnew :
   in_box pr x -> 0 <= move pr -> nonneg x -> nonpos g -> length g = length x ->
-  0 <= l1init pr <= l2init pr ->
+  0 <= l1l2tol pr -> 0 <= l1init pr <= l2init pr ->
   grow ROOps pr maxvol x g gfuel (l2init pr) (oc_xnew ROOps pr (l2init pr) x g) = GrowDone l2g xng ->
   bisect ROOps pr maxvol x g bfuel (l1init pr) l2g (Some xng) = BisDone a b (Some xnew) ->
   osum ROOps (oc_lower ROOps pr x) <= maxvol -> l2g < 10 ^ 40 -> a <> l1init pr ->
@@ -409,14 +409,14 @@ Theorem oc_step_volume (pr : @oc_params R) maxvol (x g : list R) gfuel bfuel l2g
   vol b <= maxvol < vol a /\ vol b <= osum ROOps xnew <= vol a /\
   Rabs (osum ROOps xnew - maxvol) <= vol a - vol b.
 Proof.
-  intros Hb Hm Hx Hg Hlen [H0 H12] Eg Eb Hreach Hh Ha vol.
+  intros Hb Hm Hx Hg Hlen Htol [H0 H12] Eg Eb Hreach Hh Ha vol.
   destruct (grow_brackets pr maxvol x g gfuel (l2init pr) l2g xng Hb Hm Hlen Eg Hreach Hh) as [Exng Hvol].
   destruct (grow_invariant pr maxvol x g gfuel (l2init pr) l2g xng Eg) as [_ [[k Ek] _]].
   assert (Hl2 : l2init pr <= l2g).
   { rewrite Ek. assert (1 <= 10 ^ k) by (apply pow_R1_Rle; lra).
     assert (0 <= l2init pr) by lra. nra. }
   assert (Hle : l1init pr <= l2g) by lra.
-  destruct (bisect_invariant pr maxvol x g bfuel (l1init pr) l2g (Some xng) a b (Some xnew) Hle Eb) as [P1 [P2 [P3 [P4 [_ [P6 [P7 P8]]]]]]].
+  destruct (bisect_invariant pr maxvol x g Htol bfuel (l1init pr) l2g (Some xng) a b (Some xnew) Hle Eb) as [P1 [P2 [P3 [P4 [_ [P6 [P7 P8]]]]]]].
   destruct P6 as [P6 | P6]; [contradiction|]. fold (vol a) in P6.
   assert (P7' : vol b <= maxvol) by (destruct P7 as [-> | P7]; [exact Hvol | exact P7]).
   assert (Hla : l1init pr < a) by lra.
